@@ -72,7 +72,7 @@ func NewReadWriteMultipleRegistersRequestTCP(
 		return nil, errors.New("write data length must be even number of bytes")
 	}
 	writeRegisterCount := uint16(writeByteCount / 2)
-	if writeRegisterCount == 0 || writeRegisterCount > 124 {
+	if writeRegisterCount == 0 || writeRegisterCount > 121 {
 		return nil, fmt.Errorf("write registers count out of range (1-124): %v", writeRegisterCount)
 	}
 
@@ -182,7 +182,7 @@ func NewReadWriteMultipleRegistersRequestRTU(
 		return nil, errors.New("write data length must be even number of bytes")
 	}
 	registerCount := uint16(writeByteCount / 2)
-	if registerCount == 0 || registerCount > 124 {
+	if registerCount == 0 || registerCount > 121 {
 		return nil, fmt.Errorf("write registers count out of range (1-124): %v", registerCount)
 	}
 
